@@ -449,13 +449,22 @@ def gen_dyn_case(rnd, ctx, maxlen):
             hi = list(range(i + 1, n))
             if not hi:
                 continue
-            what = rnd.choice(["link", "link", "append", "pop", "setitem", "dset", "ddel", "sadd", "sdiscard", "addtrait"])
+            what = rnd.choice(["link", "link", "append", "pop", "setitem", "dset", "ddel", "sadd", "sdiscard", "addtrait",
+                               "setslice", "setslice"])
             if what == "addtrait":
                 i = rnd.choice([0, 0, 1])
-                if i in extra_added:
-                    continue
+                # a second add_trait of the same (now existing, instance-only) name re-defines it: nothing may change
+                op = ["AddTrait", i, rnd.choice(list(range(i + 1, n)) + [None]) if i not in extra_added else None]
                 extra_added.add(i)
-                op = ["AddTrait", i, rnd.choice(list(range(i + 1, n)) + [None])]
+            elif what == "setslice":
+                # whole-list slice assignment that changes the MULTIPLICITY of objects already present
+                new = [x for x in kids[i] for _ in range(rnd.choice([0, 1, 1, 2, 3]))] + \
+                    [rnd.choice(hi) for _ in range(rnd.choice([0, 0, 1]))]
+                rnd.shuffle(new)
+                if new == kids[i]:
+                    continue
+                kids[i] = list(new)
+                op = ["Mut", i, "kids", "setslice", list(new)]
             elif what == "link":
                 fld = rnd.choice(["f", "g"])
                 cur = link[(i, fld)]
@@ -549,6 +558,20 @@ def corpus():
                            ops=[["Reg", 0, 0, 0, gs, None], ["Reg", 0, 0, 0, gs, None], ["Change", 2, 2],
                                 ["AddTrait", tgt, 2], ["Change", 2, 2], ["Unreg", 0, 0, 0, gs, None], ["Change", 2, 2],
                                 ["Unreg", 0, 0, 0, gs, None], ["Change", 2, 2], ["Unreg", 0, 0, 0, gs, None]]))
+    # slice assignment changing the multiplicity of an item already present, then deletions
+    sl = [{"cls": "N", "kids": [1, 2], "m": [], "s": []}, {"cls": "N", "kids": [], "m": [], "s": []},
+          {"cls": "N", "kids": [], "m": [], "s": []}]
+    for text in ("kids.items.value", "kids:items:value"):
+        cs.append(dict(objs=sl, handlers=["func"],
+                       ops=[["Reg", 0, 0, 0, None, text], ["Mut", 0, "kids", "setslice", [1, 1, 2]], ["Mut", 0, "kids", "pop", 0],
+                            ["Change", 1, 2], ["Change", 2, 2], ["Mut", 0, "kids", "setslice", [2, 1]], ["Change", 1, 2],
+                            ["Mut", 0, "kids", "setslice", [1]], ["Change", 2, 2], ["Change", 1, 2],
+                            ["Unreg", 0, 0, 0, None, text], ["Change", 1, 2], ["Unreg", 0, 0, 0, None, text]]))
+    # add_trait re-defining an instance-only trait that is observed: the notifiers are carried over, nothing is added
+    for g_dyn in ([N_("extra", True, True)], [N_("extra", True, True, [N_("value")])]):
+        cs.append(dict(objs=pend, handlers=["func"],
+                       ops=[["AddTrait", 0, 2], ["Reg", 0, 0, 0, g_dyn, None], ["Change", 2, 2], ["AddTrait", 0, None],
+                            ["Change", 2, 2], ["Unreg", 0, 0, 0, g_dyn, None], ["Change", 2, 2], ["Unreg", 0, 0, 0, g_dyn, None]]))
     # two ==-equal observing objects sharing a child, one handler: independent registrations
     eq = [{"cls": "E", "f": 2, "kids": [2, 3], "m": [], "s": []}, {"cls": "E", "f": 2, "kids": [2, 3], "m": [], "s": []},
           {"cls": "N", "kids": [], "m": [], "s": []}, {"cls": "N", "kids": [], "m": [], "s": []}]
